@@ -116,7 +116,10 @@ def check_div_guards(ctx, res, config="all"):
     fam = [b for b in facts.bodies if _is_div_family_body(b)]
     n_guard = n_fwd = n_unguarded = 0
     leaves = []
-    for b in fam:
+    for b0 in fam:
+        # a private helper that is not itself a member of the family (an extracted "divide in place") is read as part of its
+        # caller: the guard it contains, or the forward it makes, is the caller's
+        b = core.inline_private(facts, b0, keep=tuple(DIV_FREE), depth=2)
         tl, atoms = tests_of(b)
         rets = b.return_blocks()
         # GUARD?
@@ -1472,6 +1475,9 @@ def write_site_table(ctx):
     return len(tab)
 
 
+REQUIRED_EVERYWHERE = {"attempt to divide by zero"}
+
+
 def check_panic_site_table(ctx, res):
     import json, os
 
@@ -1560,11 +1566,60 @@ def check_panic_site_table(ctx, res):
         """the reviewed inventory has this site in a function that no longer exists (a helper was inlined into its callers)"""
         return any(k_.split("|", 2)[1:] == [kind, msg] and k_.split("|", 2)[0] not in existing for k_ in tab_c)
 
+    def duplicates_callee(body, kind, msg):
+        """the site restates, with the same message, a documented failure that a function it (transitively) calls already owns
+        in the reviewed inventory - a guard hoisted in front of the call that would panic with these words anyway"""
+        if not msg:
+            return False
+        reach_ = fa.reach_calls([body]) - {body}
+        return any(tab_c.get("%s|%s|%s" % (x, kind, msg), 0) > 0 for x in reach_)
+
+    def moved_from_owner(body, kind, msg):
+        """an inventory owner of this very site now has fewer of them and (transitively) calls this function: the site moved
+        into a helper that other forms share"""
+        for k_, allowed_ in tab_c.items():
+            pb_, kd_, ms_ = k_.split("|", 2)
+            if (kd_, ms_) == (kind, msg) and pb_ != body and cur.get(k_, 0) < allowed_ and body in fa.reach_calls([pb_]):
+                return True
+        return False
+
+    def same_operand_negations(body):
+        """every overflow-checked negation in the function negates one and the same variable: more of them than the inventory
+        counted add no new way to overflow"""
+        bd = fa.body(body)
+        if bd is None:
+            return False
+        roots = set()
+        for i_, si_, st_ in bd.stmts():
+            rv_ = st_.get("rv") if st_["k"] == "assign" else None
+            if rv_ and rv_["k"] == "unop" and rv_.get("op") == "Neg":
+                l_ = core.op_local(rv_["a"])
+                if l_ is None:
+                    return False
+                # copy root
+                for _ in range(20):
+                    ds_ = bd.defs().get(l_, [])
+                    if len(ds_) == 1 and ds_[0][0] == "assign" and ds_[0][3]["rv"]["k"] == "use" and core.op_local(ds_[0][3]["rv"]["op"]) is not None:
+                        l_ = core.op_local(ds_[0][3]["rv"]["op"])
+                    else:
+                        break
+                roots.add(l_)
+        return len(roots) == 1
+
     new = 0
     for k, n in sorted(cur.items()):
         allowed = tab_c.get(k, 0)
         if n > allowed:
             body, kind, msg = k.split("|", 2)
+            if kind == "checked-negation" and allowed > 0 and same_operand_negations(body):
+                res.ok("R3c-site", k, {"same operand": "the function negates the same reviewed operand more often"}, nontrivial=False)
+                continue
+            # only for the failure that every function of the family must have anyway (R3a-div demands a zero-divisor panic of
+            # each division-family function, so reaching it by another route adds no new failure case); for any other message a
+            # helper shared with a function that did not own the site gives that function a new panic (seed C14-6)
+            if kind != "checked-negation" and msg in REQUIRED_EVERYWHERE and (duplicates_callee(body, kind, msg) or moved_from_owner(body, kind, msg)):
+                res.ok("R3c-site", k, {"moved": "restates / relocates a site (kind, message) that the reviewed inventory has in a function on this call path"}, nontrivial=False)
+                continue
             if kind != "checked-negation" and (moved_from_callers(body, kind, msg) or moved_from_removed(kind, msg)):
                 res.ok("R3c-site", k, {"moved": "same site (kind, message) as the reviewed inventory has in this function's callers / in a removed helper"}, nontrivial=False)
                 continue
@@ -1669,6 +1724,162 @@ def check_gcd_zero_cases(ctx, res, config="all"):
         else:
             res.fail(Finding("R3b-gcd-zero-case", key, "BigUint::gcd has no early return of the other operand for a zero operand %d before entering the binary (Stein) algorithm" % p, b))
     res.clause("C13: BigUint::gcd returns the other operand for a zero operand (both sides) before the binary algorithm starts")
+
+
+def _ref_base(b, op, depth=0):
+    """(base local, is_mut) of the place a reference operand points to, through copies / reborrows; None if unclear"""
+    if depth > 12:
+        return None
+    pl = core.op_place(op)
+    if pl is None:
+        return None
+    l = pl["local"]
+    ds = b.defs().get(l, [])
+    if len(ds) != 1 or ds[0][0] != "assign":
+        return None
+    rv = ds[0][3]["rv"]
+    if rv["k"] == "use":
+        return _ref_base(b, rv["op"], depth + 1)
+    if rv["k"] == "ref":
+        p2 = rv["place"]
+        if not p2["proj"]:
+            return (p2["local"], bool(rv.get("mut")))
+        if all(e["k"] == "deref" for e in p2["proj"]):
+            r = _ref_base(b, {"k": "copy", "place": {"local": p2["local"], "proj": []}}, depth + 1)
+            if r is None:
+                # a reference parameter: the base is the parameter itself
+                return (p2["local"], bool(rv.get("mut"))) if p2["local"] <= b.arg_count else None
+            return (r[0], r[1] and bool(rv.get("mut")) or bool(rv.get("mut")))
+    return None
+
+
+def check_gcd_nonzero_at_shift(ctx, res, config="all"):
+    """Stein's algorithm takes the common power of two as min(tz(m), tz(n)).  `trailing_zeros()` of zero is None, which the
+    helper turns into 0 - so a working value that can be zero at that point silently loses the common factor.  Each value whose
+    trailing zeros feed that `min` must be provably non-zero there: a dominating `is_zero()` = false test of the value itself,
+    or of the operand it was cloned from, with no modification of the value in between."""
+    facts = ctx.facts(config)
+    bs = facts.find(trait="num_integer::Integer", self_ty="biguint::BigUint", name="gcd")
+    if len(bs) != 1:
+        res.fail(Finding("R3b-anchor-lost", "gcd", "BigUint::gcd not found", file="src/biguint.rs", line=0))
+        return
+    b0 = bs[0]
+    b = core.inline_private(facts, b0, depth=2)
+    live = b.live_blocks()
+    tl, atoms = tests_of(b)
+    calls = [(i, t) for i, t in b.calls() if i in live]
+    dest_of = {t["dest"]["local"]: (i, t) for i, t in calls if t.get("dest")}
+    mins = [(i, t) for i, t in calls if callee_name(t) == "min" and len(t["args"]) == 2]
+    if not mins:
+        res.note("R3b-gcd-nonzero: no min(..) of trailing-zero counts found in BigUint::gcd - the common power of two is computed another way, not decided")
+        res.clause("C13: the values whose trailing zeros give gcd's common power of two are non-zero there (not decided: other shape)")
+        return
+    # forward must-analysis of the fact "local X holds a non-zero value":
+    #   gen   on the false edge of `is_zero(&X)` (X a local or a reference parameter), by `X = clone(&Y)` / `X = move Y` from Y's fact
+    #   kill  by any call that receives `&mut X`, by any other assignment of X
+    #   meet  = and over the predecessors
+    zero_tests = {}
+    for t in tl:
+        c = t.cond
+        if c is None or c.kind != "call" or c.name != "is_zero" or not c.term["args"] or t.f is None:
+            continue
+        rr = _ref_base(b, c.term["args"][0])
+        if rr is not None:
+            zero_tests.setdefault((t.bb, t.f), set()).add(rr[0])
+    nloc = len(b.locals)
+    TOP = None  # unvisited
+    state_in = {0: frozenset()}
+    work = [0]
+
+    def transfer(blk, st):
+        st = set(st)
+        for s_ in b.blocks[blk]["stmts"]:
+            if s_["k"] != "assign":
+                continue
+            pl = s_["place"]
+            if pl["proj"]:
+                continue
+            x_ = pl["local"]
+            rv = s_["rv"]
+            src = core.op_local(rv["op"]) if rv["k"] == "use" else None
+            if src is not None and src in st:
+                st.add(x_)
+            else:
+                st.discard(x_)
+        t_ = b.blocks[blk].get("term")
+        if t_ and t_["k"] == "call":
+            for a in t_["args"]:
+                r_ = _ref_base(b, a)
+                if r_ is not None and r_[1]:
+                    st.discard(r_[0])
+            d_ = t_.get("dest")
+            if d_ is not None and not d_["proj"]:
+                if callee_name(t_) == "clone" and t_["args"]:
+                    r_ = _ref_base(b, t_["args"][0])
+                    if r_ is not None and r_[0] in st:
+                        st.add(d_["local"])
+                    else:
+                        st.discard(d_["local"])
+                else:
+                    st.discard(d_["local"])
+        return st
+
+    it = 0
+    while work and it < 5000:
+        it += 1
+        blk = work.pop()
+        out = transfer(blk, state_in[blk])
+        for s2 in b.succ(blk):
+            o2 = set(out) | zero_tests.get((blk, s2), set())
+            if s2 not in state_in:
+                state_in[s2] = frozenset(o2)
+                work.append(s2)
+            else:
+                m2 = state_in[s2] & frozenset(o2)
+                if m2 != state_in[s2]:
+                    state_in[s2] = m2
+                    work.append(s2)
+    n = 0
+    for mi, mt in mins:
+        for a in mt["args"]:
+            l = core.op_local(a)
+            tz = None
+            for _ in range(12):
+                if l is None:
+                    break
+                if l not in dest_of:
+                    # a copy of another local (inlined helper's return value, temporaries)
+                    ds_ = [d for d in b.defs().get(l, []) if d[0] == "assign"]
+                    if len(ds_) >= 1 and all(d[3]["rv"]["k"] == "use" for d in ds_):
+                        srcs = {core.op_local(d[3]["rv"]["op"]) for d in ds_}
+                        if len(srcs) == 1 and None not in srcs:
+                            l = srcs.pop()
+                            continue
+                    break
+                ci, ct = dest_of[l]
+                if callee_name(ct) == "trailing_zeros":
+                    tz = (ci, ct)
+                    break
+                l = core.op_local(ct["args"][0]) if ct["args"] else None
+                if l is None and ct["args"]:
+                    l = (core.op_place(ct["args"][0]) or {}).get("local")
+            if tz is None:
+                res.note("R3b-gcd-nonzero: an argument of min(..) in BigUint::gcd is not a trailing-zero count read from a call - not decided")
+                continue
+            zi, zt = tz
+            r = _ref_base(b, zt["args"][0])
+            if r is None:
+                res.note("R3b-gcd-nonzero: receiver of trailing_zeros() not resolved - not decided")
+                continue
+            x = r[0]
+            n += 1
+            key = "gcd|tz#%d" % (n - 1)
+            if x in state_in.get(zi, frozenset()):
+                res.ok("R3b-gcd-nonzero", key, {"value": b.locals[x].get("name") or "_%d" % x})
+            else:
+                res.fail(Finding("R3b-gcd-nonzero", key, "BigUint::gcd takes the common power of two from trailing_zeros() of `%s`, which is not provably non-zero there (on some path it is modified after the last is_zero() test, or never tested): trailing_zeros() of zero counts as 0, so the common factor of two is lost whenever the value is zero" % (b.locals[x].get("name") or "_%d" % x), b0, zt["span"]["line"]))
+    res.count("gcd trailing-zero counts feeding the common shift", n)
+    res.clause("C13: the values whose trailing zeros give gcd's common power of two are provably non-zero at that point (dominating is_zero test, no modification in between)")
 
 
 def check_parse_validation_order(ctx, res, config="all"):
@@ -1867,6 +2078,30 @@ def check_operand_overflow(ctx, res, config="all"):
             nm = b.locals[hit].get("name") or ("_%d" % hit)
             res.fail(Finding("R3c-operand-overflow", "%s|%s|%s" % (b.path, nm, rv["op"].replace("WithOverflow", "")),
                              "overflow-checked %s directly on the caller-supplied `%s: %s`, which the function never compares with anything (line %s): for an extreme value the debug build panics and the release build wraps" % (rv["op"].replace("WithOverflow", "").lower(), nm, b.locals[hit]["ty"], t["span"]["line"]), b, t["span"]["line"]))
+        # `x.abs()` / `-x` through core's `iN::abs` on a caller-supplied signed integer: MIN has no absolute value in the type
+        # (debug panics, release returns MIN); comparing x with 0 does not exclude MIN.  The crate's idiom is unsigned_abs /
+        # checked_uabs.  Accepted only if the parameter is compared with a constant at the MIN edge.
+        for bi, t in b.calls():
+            if bi not in live or callee_name(t) != "abs" or "core::num" not in (callee(t) or "") or not t["args"]:
+                continue
+            pa_ = _scalar_param_root(b, t["args"][0])
+            if pa_ is None:
+                continue
+            lo_, hi_ = _int_range(b.locals[pa_]["ty"])
+            if lo_ >= 0:
+                continue
+            guarded = False
+            for bj, sj, s2 in b.stmts():
+                rv2 = s2.get("rv")
+                if rv2 and rv2["k"] == "binop" and rv2["op"] in ("Lt", "Le", "Gt", "Ge", "Eq", "Ne"):
+                    for o, other in ((rv2["a"], rv2["b"]), (rv2["b"], rv2["a"])):
+                        if o["k"] != "const" and _scalar_param_root(b, o) == pa_ and other["k"] == "const" and core.op_const(other) in (lo_, lo_ + 1, -hi_):
+                            guarded = True
+            if guarded:
+                continue
+            nm = b.locals[pa_].get("name") or ("_%d" % pa_)
+            res.fail(Finding("R3c-operand-overflow", "%s|%s|abs" % (b.path, nm),
+                             "`abs()` of the caller-supplied `%s: %s` (line %s), which the function never compares with %s::MIN: for MIN the debug build panics and the release build returns MIN (a negative \"absolute value\"); the crate's idiom is unsigned_abs / checked_uabs" % (nm, b.locals[pa_]["ty"], t["span"]["line"], b.locals[pa_]["ty"]), b, t["span"]["line"]))
         res.ok("R3c-operand-overflow", b.path, None, nontrivial=False)
     res.distinct.add("R3c-operand-overflow:all")
     res.count("exported bodies scanned for overflow on caller-supplied scalars", nb)
@@ -1876,8 +2111,182 @@ def check_operand_overflow(ctx, res, config="all"):
     res.clause("R3c: no exported function applies overflow-checked + - * to a by-value integer parameter that it never compares with anything (profile divergence for extreme values)")
 
 
+def check_digit_step_checked(ctx, res, config="all"):
+    """`digits[i] -= 1` / `+= 1` (overflow-checked arithmetic with a constant directly on an element of a digit slice) is a
+    carry or borrow without propagation: when the digit is 0 (resp. MAX) the debug build panics and the release build wraps
+    and leaves the neighbouring digit wrong.  The crate's idiom is adc/sbb, __add2/sub2 with a one-digit operand, or
+    overflowing_*/wrapping_* with the flag used.  Such a step is accepted only if the function compares that element with
+    something (a test for the 0/MAX edge)."""
+    facts = ctx.facts(config)
+    digit_ty = "u32" if (config or "").endswith("32") else "u64"
+    nb = ns = 0
+    for b in facts.bodies:
+        if not (b.file or "").startswith("src/") or not ("biguint" in b.path or "bigint" in b.path):
+            continue
+        nb += 1
+        live = None
+        for bi, si, st in b.stmts():
+            if st["k"] != "assign":
+                continue
+            rv = st["rv"]
+            if rv["k"] != "binop" or rv["op"] not in ("AddWithOverflow", "SubWithOverflow"):
+                continue
+            pa = core.op_place(rv["a"])
+            if pa is None or not pa["proj"] or pa.get("ty") != digit_ty:
+                continue
+            k = core.op_const(rv["b"]) if rv["b"]["k"] == "const" else None
+            if k == 0:
+                continue
+            if k is None:
+                # `*a -= *b`, `d += carry`: another digit or a variable amount - same question, the step can leave the digit's range
+                pb_ = core.op_place(rv["b"])
+                if pb_ is None or pb_.get("ty") not in (digit_ty, None):
+                    continue
+                k = "x"
+            # element of a digit slice: `(*_e)` with _e from index/index_mut/first_mut/last_mut/get_mut/next, or `(*_s)[i]`
+            base = pa["local"]
+            kinds = [e["k"] for e in pa["proj"]]
+            is_elem = any(x in ("index", "constindex", "constidx") for x in kinds)
+            if not is_elem and kinds == ["deref"]:
+                ds = b.defs().get(base, [])
+                if len(ds) == 1 and ds[0][0] == "call" and callee_name(ds[0][2]) in ("index_mut", "index", "first_mut", "last_mut", "get_unchecked_mut", "unwrap", "next", "next_back"):
+                    is_elem = True
+                # a slice-pattern binding: `if let [a] = &mut data[..]` -> a = &mut (*s)[0 of 1]
+                if len(ds) == 1 and ds[0][0] == "assign" and ds[0][3]["rv"]["k"] == "ref" and any(e["k"] in ("index", "constindex", "constidx") for e in ds[0][3]["rv"]["place"]["proj"]):
+                    is_elem = True
+            if not is_elem:
+                continue
+            if live is None:
+                live = b.live_blocks()
+            if bi not in live:
+                continue
+            ns += 1
+            # is the element compared with anything in this function?
+            compared = False
+            for j, sj, s2 in b.stmts():
+                r2_ = s2.get("rv") if s2["k"] == "assign" else None
+                if r2_ and r2_["k"] == "binop" and r2_["op"] in ("Eq", "Ne", "Lt", "Le", "Gt", "Ge"):
+                    for side in ("a", "b"):
+                        p2 = core.op_place(r2_[side])
+                        if p2 is not None and p2.get("ty") == digit_ty and (p2["local"] == base or (p2["proj"] and [e["k"] for e in p2["proj"]] == kinds)):
+                            compared = True
+            key = "%s|%s %s" % (b.path, "+" if rv["op"].startswith("Add") else "-", k)
+            if compared:
+                res.ok("R3c-digit-step", key, {"guard": "the element is compared in this function"})
+            else:
+                res.fail(Finding("R3c-digit-step", key, "overflow-checked `%s= %s` directly on a digit of a digit slice (line %s) with no test of that digit: when the digit is %s the debug build panics and the release build wraps without carrying into the next digit" % ("+" if rv["op"].startswith("Add") else "-", k, st["span"]["line"], "MAX" if rv["op"].startswith("Add") else "0"), b, st["span"]["line"]))
+    res.distinct.add("R3c-digit-step:all")
+    res.count("bodies scanned for unpropagated digit steps", nb)
+    res.count("checked +/- constant on a digit element", ns)
+    if nb < 700:
+        res.fail(Finding("R3-anchor-lost", "digit-step", "only %d bodies scanned (floor 700)" % nb, file="src", line=0))
+    res.clause("R3c: no overflow-checked `+= c` / `-= c` directly on an element of a digit slice without a test of that element (a carry/borrow must be propagated)")
+
+
 # ------------------------------------------------------------------------------------------
 # from_f64(..).unwrap() needs a finite argument
+
+
+def _float_max_exp(b, src_bb):
+    for j in src_bb:
+        if callee_name(b.blocks[j]["term"]) == "to_f32":
+            return 128
+    return 1024
+
+
+def _bits_upper_bound(b, at_block, live):
+    """largest bit length admitted by the comparisons `bits() <op> constant` whose deciding edge dominates at_block, or None"""
+    from . import r4
+
+    tl, atoms = tests_of(b)
+    best = None
+    for t in tl:
+        c = t.cond
+        if c is None or c.kind != "cmp" or t.bb not in live:
+            continue
+        for edge_true, tgt in ((True, t.t), (False, t.f)):
+            if tgt is None or not b.edge_dominates((t.bb, tgt), at_block):
+                continue
+            for (x, rx, ry, flip) in ((c.a, c.ra, c.rb, False), (c.b, c.rb, c.ra, True)):
+                if calls_of(x) != {"bits"} or consts_of(x):
+                    continue
+                try:
+                    k = r4.eval_int(b, ry, {})
+                except Exception:
+                    continue
+                if not isinstance(k, int):
+                    continue
+                op = c.op
+                if flip:
+                    op = {"Lt": "Gt", "Le": "Ge", "Gt": "Lt", "Ge": "Le"}.get(op, op)
+                if not edge_true:
+                    op = {"Lt": "Ge", "Le": "Gt", "Gt": "Le", "Ge": "Lt", "Eq": "Ne", "Ne": "Eq"}.get(op, op)
+                ub = {"Le": k, "Lt": k - 1, "Eq": k}.get(op)
+                if ub is not None and (best is None or ub < best):
+                    best = ub
+    return best
+
+
+def _check_scale_constant(b, res):
+    from . import r4
+    from . import tests as _t
+
+    at = _t.Atoms(b)
+    live = b.live_blocks()
+    found = 0
+    for i, si, st in b.stmts():
+        if i not in live or st["k"] != "assign":
+            continue
+        rv = st["rv"]
+        if rv["k"] != "binop" or rv["op"] not in ("Sub", "SubWithOverflow", "SubUnchecked"):
+            continue
+        xa = at.of_operand(rv["a"])
+        if calls_of(xa) != {"bits"} or consts_of(xa):
+            continue
+        # does the difference feed the amount of a right shift of a big value?
+        tainted = {st["place"]["local"]}
+        changed = True
+        while changed:
+            changed = False
+            for j, sj, s2 in b.stmts():
+                if s2["k"] != "assign" or s2["place"]["local"] in tainted:
+                    continue
+                used = [(core.op_place(o) or {}).get("local") for o in core.rv_operands(s2["rv"])]
+                if isinstance(s2["rv"].get("place"), dict):
+                    used.append(s2["rv"]["place"].get("local"))
+                if any(l in tainted for l in used):
+                    tainted.add(s2["place"]["local"])
+                    changed = True
+            for j, t2 in b.calls():
+                d = t2.get("dest")
+                if d is None or d["local"] in tainted:
+                    continue
+                if any(core.op_local(a) in tainted or ((core.op_place(a) or {}).get("local") in tainted) for a in t2["args"]):
+                    tainted.add(d["local"])
+                    changed = True
+        feeds = False
+        for j, t2 in b.calls():
+            if callee_name(t2) in ("shr", "shr_assign") and len(t2["args"]) == 2 and j in live:
+                a1 = t2["args"][1]
+                if (core.op_place(a1) or {}).get("local") in tainted and ("Big" in (callee(t2) or "") or "Big" in str((callee_fn(t2) or {}).get("args"))):
+                    feeds = True
+        if not feeds:
+            continue
+        found += 1
+        key = "%s|bits-K" % b.path
+        try:
+            k = r4.eval_int(b, rv["b"], {})
+        except Exception:
+            k = None
+        lim = (128 if any(callee_name(t2) == "to_f32" for _, t2 in b.calls()) else 1024) - 1
+        if not isinstance(k, int):
+            res.note("R3-float-scale-bound: %s: the constant subtracted from the bit length could not be evaluated - not decided" % key)
+            res.ok("R3-float-scale-bound", key, {"K": "undecided"}, nontrivial=False)
+        elif k <= lim:
+            res.ok("R3-float-scale-bound", key, {"K": k, "limit": lim})
+        else:
+            res.fail(Finding("R3-float-scale-bound", key, "the scaled retry of the float guess keeps up to %d bits (bit length minus %d, line %s): a value of more than %d bits can convert to infinity again, and for a value that does the retry shifts by less than it must - with %d the shift can be 0 and the function calls itself on the same value without end" % (k, k, st["span"]["line"], lim, lim + 1), b, st["span"]["line"]))
+    return found
 
 
 def check_float_guess_guard(ctx, res, config="all"):
@@ -1938,13 +2347,34 @@ def check_float_guess_guard(ctx, res, config="all"):
                                     rets_ = [s_ for j2, si2, s_ in cb.stmts() if s_["k"] == "assign" and s_["place"]["local"] == 0]
                                     finite = True
             key = "%s|from_f64#%d" % (b.path, sum(1 for j, tt in b.calls() if j < i and callee_name(tt) == "from_f64"))
-            if finite:
+            bound = None
+            if not finite and other:
+                # a bit-length guard in place of is_finite(): `bits <= C` on the edge that reaches the conversion.  A value of at
+                # most C bits is below 2^C; it is certainly finite iff C <= MAX_EXP - 1 (a value of MAX_EXP bits can round up to
+                # 2^MAX_EXP = infinity)
+                bound = _bits_upper_bound(b, i, live)
+            if bound is not None:
+                lim = _float_max_exp(b, src_bb) - 1
+                if bound <= lim:
+                    res.ok("R3-float-guess-finite", key, {"guard": "bits <= %d" % bound})
+                else:
+                    res.fail(Finding("R3-float-guess-unguarded", key, "from_f64(..).unwrap() (line %s) is guarded by a bit-length test that admits values of %d bits: such a value can round up to 2^%d = infinity in to_f64(), from_f64 then returns None and the unwrap panics (a bit-length guard must not admit more than %d bits; is_finite() is the crate's guard)" % (t["span"]["line"], bound, lim + 1, lim), b, t["span"]["line"]))
+            elif finite:
                 res.ok("R3-float-guess-finite", key, {"guard": "is_finite()"})
             elif other:
                 res.note("R3-float-guess-finite: %s: the unwrapped from_f64 is guarded by a test other than is_finite() - not decided" % key)
                 res.ok("R3-float-guess-finite", key, {"guard": "other test (undecided)"}, nontrivial=False)
             else:
                 res.fail(Finding("R3-float-guess-unguarded", key, "from_f64(..).unwrap() (line %s) on a float derived from to_f64() without an is_finite() guard: to_f64() returns Some(INFINITY) for large values, from_f64 then returns None and the unwrap panics" % t["span"]["line"], b, t["span"]["line"]))
+    # the scaled retry: `extra = bits - K; scale = f(extra) >= extra; (self >> scale).root()`.  What is left has at most K bits,
+    # so the retry is certain to take the finite branch iff K <= MAX_EXP - 1; with a larger K the retry can see infinity again
+    # with (for K = MAX_EXP) extra = 0, scale = 0: it calls itself on the same value for ever
+    n_scale = 0
+    for b in facts.bodies:
+        if not any(callee_name(t) in ("to_f64", "to_f32") for _, t in b.calls()):
+            continue
+        n_scale += _check_scale_constant(b, res)
+    res.count("float-guess scale constants (bits - K feeding a right shift)", n_scale)
     res.count("from_f64(to_f64-derived).unwrap() sites", n)
     if config in ("all", "default") and n < 1:
         res.fail(Finding("R3-anchor-lost", "float-guess", "no float-guess site found (floor 1: the three roots may share one helper)", file="src/biguint.rs", line=0))
